@@ -10,6 +10,7 @@ import Hpl.Model.Canon
 import Hpl.Spec.Canonical
 import Hpl.Spec.Eval
 import Hpl.Spec.Shapes
+import Hpl.Spec.Clash
 import Hpl.Model.Rewrite.Split
 import Hpl.Model.Rewrite.Refactor
 import Hpl.Model.Rewrite.Simplify
@@ -42,6 +43,11 @@ def handle (req : Sexp) : Sexp :=
     match decRaw r with
     | some r => encM (fun e => [encExpr e]) (build r)
     | none => errS "protocol" "build"
+  | .list [.atom "clash", r] =>
+    -- does the definite-clash detector (Spec/Clash; sound for `build` by Props/C05) flag this raw term?
+    match decRaw r with
+    | some r => okS [Sexp.ofBool (hasClashB r)]
+    | none => errS "protocol" "clash"
   | .list [.atom "mkpred", r] =>
     match decRaw r with
     | some r => encM (fun p => [encPred p]) (build r >>= predFromExpr)
